@@ -219,7 +219,8 @@ ShortApply(m, fr, v) ==
         cp == DeepCopy(m.heap, v)
         m1 == NoteLookup([m EXCEPT !.heap = cp.h], vm, node.name)
         cur == Lookup(m1, vm, node.name)
-    IN IF cur = Undef
+    IN IF HasNoCopy(m.heap, v) THEN PopExc(m, node, TypeErr)
+       ELSE IF cur = Undef
        THEN PopExc(m1, node, IF Dev("ShortOpKeyError") THEN OtherErr("KeyError") ELSE ParserErr)
        ELSE LET ip == InplaceApply(m1.heap, node.op, cur, cp.v) IN
             IF IsVal(ip.r) /\ Oversize(m1, ip.h) /\ ~NodeExempt(node) THEN PopExc(m1, node, ParserErr)
@@ -259,6 +260,7 @@ RetToNode(m, fr, v, orc) ==
       [] node.k = "un" -> PopRes(m, node, UnaryApply(m.heap, node.op, v))
       [] node.k = "assign" ->
             LET cp == IF Dev("MutAssignNoCopy") THEN [h |-> m.heap, v |-> v] ELSE DeepCopy(m.heap, v) IN   \* mutant: non-vacuity of C12
+            IF HasNoCopy(m.heap, v) /\ ~Dev("MutAssignNoCopy") THEN PopExc(m, node, TypeErr) ELSE
             PopRet(Store([m EXCEPT !.heap = cp.h], fr.vm, node.name, cp.v), node, None)
       [] node.k = "short" -> ShortApply(m, fr, v)
       [] node.k = "if" ->
